@@ -131,6 +131,8 @@ func newPkg(pkg *packages.Package, u *Universe) Package {
 				}
 
 				if named != nil {
+					// the receiver of a generic type's method is an instantiation: group by the declared type
+					named = named.Origin()
 					p.methods[named] = append(p.methods[named], x)
 				}
 			} else if x.Parent() == p.Package.Types.Scope() {
@@ -324,7 +326,7 @@ func (p *pkgInfo) Functions() map[string]*types.Func {
 }
 
 func (p *pkgInfo) MethodsOf(n *types.Named, ptr bool) []*types.Func {
-	funcs, _ := p.methods[n]
+	funcs, _ := p.methods[n.Origin()]
 
 	if ptr {
 		return funcs
